@@ -109,10 +109,8 @@ theorem C13_buffer (n : Nat) (hn : Width n) (grouped signed : Bool) (v : Int) (g
     exact ⟨Lib.str_unsigned Gen.lib grouped n f d (gen_api grouped) hn hfile hfb hfg hok g x hx,
       Lib.buf_unsigned Gen.lib grouped n f d (gen_api grouped) hn hfile hfb hfg hok g x hx buf hcap⟩
 
-/-- text of a byte list (inverse of `bytesOf` on strings) -/
-def textOf (bs : List Byte) : String := String.ofList (bs.map Char.ofNat)
-
-/-- Round trip: parsing the returned text as a decimal integer (core `String.toInt?`) yields the
+/-- Round trip: parsing the returned text (`textOf`: the bytes as a `String`) as a decimal integer
+    (core `String.toInt?`) yields the
     original value — every width, signed and unsigned, every value. -/
 theorem C13_roundtrip (n : Nat) (hn : Width n) (signed : Bool) (v : Int) (g : Byte)
     (hv : if signed then -(2 ^ (n - 1)) ≤ v ∧ v < 2 ^ (n - 1) else 0 ≤ v ∧ v < 2 ^ n) :
